@@ -8,6 +8,16 @@ same choices and must show, step by step, the same pending operation and enabled
 thread (bisimulation along the schedule), the same outcome (done / deadlock), the same log of
 the control script and the same final observables.  Schedules are enumerated from the real
 code: all schedules with a bounded number of pre-emptions (CHESS style, by re-execution).
+
+Fine-grained cases (entry "fine"): the played objects are scheduler-aware iterables (`Hooked`):
+every pull of a sample is one more yield point (`it<k>.pull`), so a pre-emption can fall in the
+middle of the assembly of a chunk — where concurrent players would interfere through anything
+shared (chunk buffers, module-level state, the played iterables themselves, the backend).  2–3
+players x both chunking strategies (`chunks.default = chunks.struct` / `chunks.array`, restored
+after each run) x equal / different chunk sizes and sample formats x own / shared (`the same list
+object`, `Stream.copy()` copies, one `thub` object) / raising iterables.  The Lean side replays
+the fine-grained transition system `ALV/Model/C17Fine.lean` (one `pull` step per sample, chunk
+buffer per player), proved to refine the coarse one (`fine_refines`).
 """
 import os
 import struct
@@ -24,19 +34,40 @@ RULE = ("every schedule with <= B pre-emptions (one player: B=2 quick, 3 thoroug
         "2 thorough; each enumeration capped, see harness/props/c17.py:generate) of "
         "each control history x wait in {T,F} x chunk counts, plus random walks over schedules; distinct = distinct "
         "(script, wait, cs, executed schedule); non-trivial = at least one player thread ran and at least one "
-        "context switch between two unfinished threads happened")
+        "context switch between two unfinished threads happened.  Fine-grained families (every pull from a played "
+        "iterable is a yield point; harness/props/c17.py:FINE_FAMILIES x {chunks.struct, chunks.array} x wait in {T,F}): "
+        "every schedule with <= 2 pre-emptions taken inside chunk assembly (pre-empted thread pulling or about to "
+        "write; thorough: <= 3) plus <= 1 pre-emption anywhere (thorough: <= 2) for two players with equal / "
+        "different chunk sizes, formats, lengths, control calls, the same list object played twice, Stream.copy() "
+        "copies, one thub object, iterables that raise; three players <= 1 (thorough 2) pre-emptions in assembly; "
+        "random walks over random 2-3 player configurations")
 TRUSTED = [
     "hand-written Lean transition system ALV/Model/C17.lean of AudioIO.play/close/thread_finished and "
     "AudioThread.run/stop/pause/play (modelled, not verified); atomicity = one threading/backend operation plus the "
     "local code up to the next one; the variant of stop() (Cfg.fixed) is probed from the source under test — on the "
     "repaired source the liveness theorems that apply are the ones with cfg.fixed = true",
+    "fine-grained cases: hand-written ALV/Model/C17Fine.lean (chunk assembly: one pull per step, buffer per player; "
+    "both chunking strategies have this shape) tied step by step; proved to refine the coarse system when no iterable "
+    "raises (fine_refines); played objects are wrapped in props/c17.py:Hooked (a yield point before each item is handed "
+    "over; the wrapped object itself — list, Stream.copy() copy, thub copy — is advanced atomically); which variant of "
+    "`run` (exception leaves the loop with / without the epilogue: FCfg.dieFixed) is probed from the source under test",
     "harness/sched.py (deterministic scheduler in place of `threading`) and harness/fakeaudio.py (fake pyaudio/_portaudio "
     "with the PortAudio stream protocol); CPython `threading` semantics assumed, attribute reads/writes between two "
     "yield points are taken as atomic (GIL)",
 ]
 ASSUMPTIONS = [
     "one control thread issues play/pause/play/stop/join/close; players are AudioThread objects created by AudioIO.play",
-    "audio iterables are finite lists, dfmt='f', nchannels=1, no recording streams, api=None",
+    "audio iterables are finite (lists, generators over lists, Stream.copy() / thub copies of a finite Stream, "
+    "possibly raising after their samples), samples and the float zero padding packable in the sample format (dfmt 'f'; "
+    "'i'/'h' only with whole chunks), nchannels=1, no recording streams (the property is about playback), api=None",
+    "fine-grained system (Lean, all schedules, any number of players, per-player chunk sizes): "
+    "fine_assembly_own_samples (every configuration, raising iterables included: stream ++ buffer ++ unpulled = the "
+    "player's own audio, buffer <= cs, chunks of exactly cs samples); when no iterable raises: fine_refines (a fine step "
+    "is a coarse step or a pull), fine_delivered_prefix/complete, fine_safety, fine_terminal_iff, fine_rank_decreases, "
+    "fine_steps_bounded, fine_maximal_run_exists, fine_shutdown, fine_wait_close_delivers_all; raising iterables: "
+    "die_close_spins (code as it is: close loops for ever over the dead thread, known finding D21), "
+    "die_fixed_close_returns (with try/finally); general shutdown with raising iterables + repair is PENDING "
+    "(fine_shutdown_with_raising_iterables_PENDING)",
     "liveness is proved for maximal runs of the model WITHOUT a fairness assumption: every step of every thread "
     "decreases a ranking function (theorem rank_decreases), so every schedule is finite (steps_bounded, bound "
     "1 + sum over calls: play 27+8*chunks, pause/play/stop 4, join 2, close 12) and can be continued to a terminal "
@@ -61,11 +92,15 @@ MANIFEST = {
             "any number of players, chunk counts and control scripts: safety (delivery, terminate once, closed after close, "
             "backend protocol, lock order) AND liveness (every run is finite by a ranking function; close returns and "
             "everything is shut: shutdown_fixed, shutdown_no_pause, shutdown_wait; every terminal state characterised: "
-            "terminal_states); tied to /repo by a step-by-step bisimulation check of the unmodified lazy_io.py source "
-            "under a deterministic scheduler on every check",
+            "terminal_states); the same for the fine-grained system in which every pull of a sample from a played iterable "
+            "is a step (refinement fine_refines + chunk-assembly invariant fine_assembly_own_samples + fine_shutdown); tied "
+            "to /repo by a step-by-step bisimulation check of the unmodified lazy_io.py source under a deterministic "
+            "scheduler on every check, with scheduler-aware played iterables, both chunking strategies, 1..3 players",
     "note": "Trusted: Lean kernel, axioms propext/Classical.choice/Quot.sound, harness/sched.py + harness/fakeaudio.py "
             "(CPython threading semantics assumed); the model is hand written and validated against the code step by "
-            "step along every explored schedule, not extracted from it.  No liveness statement is left PENDING; the "
+            "step along every explored schedule, not extracted from it.  PENDING: shutdown in general for played "
+            "iterables that raise, with the proposed repair of run (fine_shutdown_with_raising_iterables_PENDING; the "
+            "delivery invariant is proved for them, the livelock of the code as it is is proved: die_close_spins, D21).  The "
             "wait=True-with-a-paused-player deadlock (D10b) is a known finding excluded by an explicit hypothesis.",
     "technique": "interleaving transition system in Lean 4 with inductive invariants over all schedules and a ranking "
                  "function for termination; step-by-step bisimulation against the real code under a deterministic scheduler",
@@ -572,6 +607,8 @@ FINE_FAMILIES_3 = [
     ("3p-mixed", [["play", 2], ["play", 3, {"cs": 3}], ["play", 2, {"dfmt": "i"}]], [["close"]], []),
 ]
 STRATEGIES = ("struct", "array")
+# thorough tier: families explored with <= 2 pre-emptions ANYWHERE (the others: <= 1 anywhere)
+THOROUGH_ANYWHERE = ("2p-same-key", "2p-diff-size", "2p-ctl", "shared-list", "thub-copies")
 
 
 def fine_cfg(plays, tail, sources, wait, strategy, cs=2):
@@ -626,8 +663,11 @@ def generate_fine(rng, tier, scale):
                         if (fi + si + wi) % 4 == 0:
                             cases += explore(cfg, 1, 120)
                     else:
-                        cases += explore(cfg, 2, 6000)
-                        cases += explore(cfg, 3, 3000, in_assembly)
+                        cases += explore(cfg, 3, 1500, in_assembly)
+                        if name in THOROUGH_ANYWHERE:
+                            cases += explore(cfg, 2, 2500)
+                        else:
+                            cases += explore(cfg, 1, 400)
         for fi, (name, plays, tail, sources) in enumerate(FINE_FAMILIES_3):
             for si, strategy in enumerate(STRATEGIES):
                 for wi, wait in enumerate((True, False)):
@@ -636,7 +676,7 @@ def generate_fine(rng, tier, scale):
                         if (fi + si + wi) % 2 == 0:
                             cases += explore(cfg, 1, 150, in_assembly)
                     else:
-                        cases += explore(cfg, 2, 4000, in_assembly)
+                        cases += explore(cfg, 2, 2000, in_assembly)
     for _ in range((60 if quick else 1200) * scale):
         cfg = random_fine_cfg(rng)
         cases += random_walks(cfg, rng, 2)
